@@ -33,7 +33,8 @@ pub fn convert_glob_to_pattern(s: &str) -> String {
         .to_string()
     });
 
-    format!("^(?i){}$", string)
+    // `s`: a wildcard stands for any character, a line feed in a file name included
+    format!("^(?si){}$", string)
 }
 
 pub fn convert_like_to_pattern(s: &str) -> String {
@@ -62,5 +63,6 @@ pub fn convert_like_to_pattern(s: &str) -> String {
         .to_string()
     });
 
-    format!("^(?i){}$", string)
+    // `s`: a wildcard stands for any character, a line feed in a file name included
+    format!("^(?si){}$", string)
 }
